@@ -20,7 +20,7 @@ P.assume("to_inertial/from_inertial at step boundaries are mutually inverse (C12
          "coordinates does not change the state")
 P.assume("force evaluations and coordinate transforms between letters are recomputations that do not alter p_jh (frame checked in C12/C02)")
 P.not_decided += ["WHFast512 (not compiled)", "accumulated rounding differences between merged and split drifts ('up to rounding error')",
-                  "MERCURIUS / EOS word equivalence: not yet under contract"]
+                  "MERCURIUS with close encounters (adaptive encounter sub-integration); the encounter-free MERCURIUS and EOS word equivalences are in C09_sync_more"]
 
 
 def norm(word):
